@@ -271,7 +271,7 @@ HEAVY = {"calls", "recursion", "incdec", "compound", "nested_loops", "long_arith
 
 # programs whose address arithmetic multiplies by constants: with SYMBOLIC constants the obligations become
 # symbolic x symbolic products under array reads, which z3 does not decide in reasonable time
-NO_SYMCONST = {"const_fold", "incdec", "compound", "global_array", "local_array", "store_load_alias_store", "pointer_arg", "struct", "store_narrowload_store"}
+NO_SYMCONST = {"nested_loops", "const_fold", "incdec", "compound", "global_array", "local_array", "store_load_alias_store", "pointer_arg", "struct", "store_narrowload_store"}
 
 
 def jobs_for(prop, tier, seed):
